@@ -484,6 +484,10 @@ def run(ctx):
     weights_rule(ctx, gl, lib)
     beamops.rule(ctx, lib, "R2.7")
     thickness_guard_rule(ctx)
+    # the beam frame block (global -> local) decides which motions are in ker K of an inclined beam: R10.1
+    from . import c10
+
+    c10.frame_rule(ctx)
     sri_rule(ctx, lib)
     if ctx.tier == "thorough":
         patch_rank(ctx, lib, gl)
